@@ -20,7 +20,7 @@ def wt_new():
     wt = tempfile.mkdtemp(prefix="seed-", dir="/tmp")
     os.rmdir(wt)
     subprocess.run(["git", "-C", "/repo", "worktree", "add", "--detach", wt, "HEAD", "-q"], check=True)
-    subprocess.run(["/tmp/wt/build_ext.sh", wt], capture_output=True)
+    subprocess.run([os.path.join(VERIF, "tools", "build_ext.sh"), wt], capture_output=True)
     return wt
 
 
@@ -55,7 +55,7 @@ def main():
         if r.returncode:
             print("patch does not apply:", r.stderr)
             return 2
-        subprocess.run(["/tmp/wt/build_ext.sh", mut], capture_output=True)
+        subprocess.run([os.path.join(VERIF, "tools", "build_ext.sh"), mut], capture_output=True)
         t = subprocess.run(["/venv/bin/python", "-m", "pytest", "-q", "-p", "no:cacheprovider", "--timeout=900"], cwd=mut, capture_output=True, text=True)
         tail = [l for l in t.stdout.splitlines() if " passed" in l or " failed" in l][-1:] or [t.stdout[-200:]]
         report["suite_with_change"] = tail[0].strip()
